@@ -140,6 +140,7 @@ TSConfs == [inner2Emb |-> [Inner2 |-> [type |-> "object", properties |-> [X |-> 
             \* entries for types that have a built-in translation (time.Time, *big.Int): the entry wins
             \* entries for named types of UNSUPPORTED kinds (type Callback func(); type Index map[int]string)
             badOverride |-> ("named:Callback" :> [type |-> "string"]) @@ ("named:Index" :> [type |-> "object", description |-> "by code"]),
+            ptrOverride |-> ("named:PInt" :> [type |-> "string", description |-> "by code"]),
             stdOverride |-> ("std:time" :> [type |-> "string", format |-> "date-time"]) @@ ("std:bigint" :> [type |-> "integer"])]
 OTSStd == {Std("time"), Ptr(Std("time")), Slice(Std("time")), MapOf(Ptr(Std("time"))),
            Struct("S", <<Field("When", "", {}, Std("time")), Field("Until", "u", {"omitempty"}, Ptr(Std("time"))), Field("N", "", {}, Ptr(Std("bigint"))),
@@ -154,11 +155,16 @@ ODesc == {Struct("S", <<DescF("A", Prim("int8"), d), Field("B", "b", {"omitempty
                Struct("S", <<Field("B", "", {}, Prim("int8")), DescF("M", Bad("mapint"), "by code"), DescF("C", Slice(Bad("chan")), "chans")>>),
                Slice(Struct("S", <<DescF("A", Ptr(Bad("complex")), "z"), DescF("B", Prim("string"), "kept")>>)),
                Struct("S", <<DescF("W", Struct("Wrap", <<DescF("F", Bad("func"), "cb"), Field("V", "", {}, Prim("int8"))>>), "wrapped")>>)}
+\* a DEFINED POINTER type (type PInt *int8) with an entry: "every TypeSchemas entry substituted wherever its type occurs"
+PInt == Named("PInt", Ptr(Prim("int8")))
+OPtrNamed == {PInt, Ptr(PInt), Slice(PInt), MapOf(PInt),
+              Struct("S", <<Field("A", "", {}, PInt), Field("B", "b", {"omitempty"}, Ptr(PInt)), Field("V", "", {}, Prim("int8"))>>)}
 ONamedBad == {Callback, Ptr(Callback), Slice(Callback), MapOf(Index), Index,
               Struct("S", <<Field("F", "", {}, Callback), Field("G", "g", {"omitempty"}, Ptr(Callback)), Field("H", "", {}, Prim("int8")), Field("I", "", {}, Slice(Index))>>)}
 OCases == {[t |-> t, ign |-> ign, tsn |-> "badOverride"] : t \in ONamedBad, ign \in BOOLEAN} \cup {[t |-> t, ign |-> ign, tsn |-> "none"] : t \in ODesc, ign \in BOOLEAN} \cup {[t |-> t, ign |-> ign, tsn |-> "none"] : t \in UNION {OBad, ORec, OMany}, ign \in BOOLEAN}
           \cup {[t |-> t, ign |-> FALSE, tsn |-> c] : t \in OTS, c \in {"innerTyped", "innerUntyped", "innerTypes", "innerTypesLast", "embOverride"}}
           \cup {[t |-> t, ign |-> FALSE, tsn |-> c] : t \in OTS2, c \in {"inner2Emb", "none"}}
+          \cup {[t |-> t, ign |-> FALSE, tsn |-> c] : t \in OPtrNamed, c \in {"ptrOverride", "none"}}
           \cup {[t |-> t, ign |-> FALSE, tsn |-> c] : t \in OTSStd, c \in {"stdOverride", "none"}}
 
 Types(z) ==
